@@ -31,8 +31,8 @@ ASSUMPTIONS = [
 ]
 FLOORS = {"quick": {"evaluations": 700, "accepted": 150, "refused": 450,
                     "value_fields_compared": 400},
-          "thorough": {"evaluations": 30000, "accepted": 4000, "refused": 20000,
-                       "value_fields_compared": 12000}}
+          "thorough": {"evaluations": 80000, "accepted": 6000, "refused": 50000,
+                       "value_fields_compared": 30000}}
 
 CORRUPTIONS = ["flip-quote", "flip-quote-report-data", "flip-quote-signature", "flip-custom-data",
                "flip-att-message", "flip-att-report-data", "flip-att-key", "flip-auth-data",
@@ -42,13 +42,13 @@ CORRUPTIONS = ["flip-quote", "flip-quote-report-data", "flip-quote-signature", "
                "wrong-root", "expired-link", "future-link", "custom-data-swapped-resigned-hash",
                "att-key-replaced", "truncate-quote-signature", "swap-att-and-quote-signatures",
                "quote-extended", "auth-data-extended", "attacker-branch-under-non-x509",
-               "root-of-other-kind"]
+               "root-of-other-kind", "quote-hash-at-offset", "att-hash-at-offset"]
 
 
 def shards(tier, seed):
     if tier == "quick":
         return [{"seed": seed * 1000 + i, "n": 14} for i in range(16)]
-    return [{"seed": seed * 1000 + i, "n": 110} for i in range(32)]
+    return [{"seed": seed * 1000 + i, "n": 400} for i in range(32)]
 
 
 def flip_hex(hx, rng, lo=0, hi=None):
@@ -115,6 +115,28 @@ def corrupt(rng, m, doc, kind):
     if kind == "bind-31-of-32-att":
         msg = bytearray(bytes.fromhex(a["message"]))
         msg[o.RB_REPORT_DATA + 31] ^= 0x80
+        a["message"] = bytes(msg).hex()
+        a["signature"] = g.sign_der(m.cert_keys[-1], bytes(msg)).hex()
+        return d, root, "attestation"
+    if kind in ("quote-hash-at-offset", "att-hash-at-offset"):
+        # the binding hash is present in the report data, but not at its start;
+        # everything is properly re-signed
+        import hashlib as _h
+        off = rng.choice([1, 7, 16, 31, 32])
+        if kind == "quote-hash-at-offset":
+            msg = bytearray(bytes.fromhex(q["message"]))
+            hsh = _h.sha256(bytes.fromhex(q["custom_data"])).digest()
+            rd = bytearray(rng.randbytes(64))
+            rd[off:off + 32] = hsh
+            msg[o.Q_REPORT_DATA:o.Q_REPORT_DATA + 64] = rd
+            q["message"] = bytes(msg).hex()
+            q["signature"] = g.sign_der(m.att_key, bytes(msg)).hex()
+            return d, root, "quote"
+        msg = bytearray(bytes.fromhex(a["message"]))
+        hsh = bytes(msg[o.RB_REPORT_DATA:o.RB_REPORT_DATA + 32])
+        rd = bytearray(rng.randbytes(64))
+        rd[off:off + 32] = hsh
+        msg[o.RB_REPORT_DATA:o.RB_REPORT_DATA + 64] = rd
         a["message"] = bytes(msg).hex()
         a["signature"] = g.sign_der(m.cert_keys[-1], bytes(msg)).hex()
         return d, root, "attestation"
@@ -291,7 +313,7 @@ def run_case(acc, cseed, tmpdir):
             "verdict": bool(gv and gv[0])})
     kinds = list(CORRUPTIONS)
     rng.shuffle(kinds)
-    for kind in kinds[:10]:
+    for kind in kinds[:12]:
         r = corrupt(rng, m, doc, kind)
         if r is None:
             continue
